@@ -112,6 +112,23 @@ fn c10_dot(x: &M, a: u8, c: u64) -> Option<String> {
             return Some(format!("apply({x:?}, ({a},{c})) changed actor {b}"));
         }
     }
+    // constructors must not store zero counters either and must agree with apply
+    let from_dot: VClock<u8> = Dot::new(a, c).into();
+    let exp_fd: M = if c > 0 { [(a, c)].into_iter().collect() } else { M::new() };
+    if vc(&from_dot) != exp_fd {
+        return Some(format!("VClock::from(Dot({a},{c})) = {:?}", vc(&from_dot)));
+    }
+    let mut dots: Vec<Dot<u8>> = x.iter().map(|(aa, cc)| Dot::new(*aa, *cc)).collect();
+    dots.push(Dot::new(a, c));
+    dots.push(Dot::new(a, 0));
+    let fi: VClock<u8> = dots.iter().cloned().collect();
+    if vc(&fi) != vc(&v2) {
+        return Some(format!("from_iter({dots:?}) = {:?}, expected {:?}", vc(&fi), vc(&v2)));
+    }
+    let back: VClock<u8> = v2.clone().into_iter().collect();
+    if back != v2 {
+        return Some(format!("into_iter/from_iter round trip changed {:?}", vc(&v2)));
+    }
     let i = vx.inc(a);
     if i.actor != a || i.counter != have + 1 {
         return Some(format!("inc({x:?}, {a}) = {i:?}"));
